@@ -21,11 +21,12 @@ import time
 from . import repo
 
 VERIF = repo.VERIF
+OUT = os.environ.get("VERIF_OUT", VERIF)  # evidence / replays / scratch go here (seeded-change evaluations redirect them away from the registered evidence)
 NCPU = int(os.environ.get("VERIF_WORKERS", str(os.cpu_count() or 4)))
 
 
 def scratch_dir(tag):
-    d = os.path.join(VERIF, ".scratch", "%s-%d-%d" % (tag, os.getpid(), int(time.time() * 1000) % 100000))
+    d = os.path.join(OUT, ".scratch", "%s-%d-%d" % (tag, os.getpid(), int(time.time() * 1000) % 100000))
     os.makedirs(d, exist_ok=True)
     return d
 
@@ -277,7 +278,7 @@ class Agg:
 
 
 def write_evidence(pid, tier, seed, level, coverage, assumptions, wall_s, violations):
-    os.makedirs(os.path.join(VERIF, "evidence"), exist_ok=True)
+    os.makedirs(os.path.join(OUT, "evidence"), exist_ok=True)
     ev = {
         "property_id": pid,
         "tier": tier,
@@ -288,7 +289,7 @@ def write_evidence(pid, tier, seed, level, coverage, assumptions, wall_s, violat
         "wall_s": round(wall_s, 2),
         "violations": int(violations),
     }
-    p = os.path.join(VERIF, "evidence", pid + ".json")
+    p = os.path.join(OUT, "evidence", pid + ".json")
     with open(p + ".tmp", "w") as f:
         json.dump(ev, f, indent=1, default=str)
     os.replace(p + ".tmp", p)
@@ -322,7 +323,7 @@ def finish(mod, tier, seed, cases, results, t0, extra_agg=None):
     for mech, lst in sorted(known.items()):
         f = classify(pid, mech, findings)
         print("KNOWN-FINDING: property=%s %s [%d occurrence(s); key=%s]" % (pid, f.get("desc", ""), len(lst), mech))
-    rdir = os.path.join(VERIF, "replays", pid)
+    rdir = os.path.join(OUT, "replays", pid)
     status = 0
     for mech, lst in sorted(unknown.items()):
         idx, v = lst[0]
@@ -416,7 +417,7 @@ def main_for(mod, argv):
         print("INCONCLUSIVE property=%s reason=codec-build-failed %s" % (mod.PID, str(e)[-500:]))
         return 2
     sdir = scratch_dir(mod.PID)
-    shutil.rmtree(os.path.join(VERIF, "replays", mod.PID), ignore_errors=True)  # replays belong to the run that wrote them
+    shutil.rmtree(os.path.join(OUT, "replays", mod.PID), ignore_errors=True)  # replays belong to the run that wrote them
     try:
         if hasattr(mod, "run"):
             return mod.run(a.tier, a.seed, sdir, t0)
